@@ -513,3 +513,107 @@ def run_scanner_lines(rec, S):
     rec.inst(R, "new_line pushes onto line_offsets", ok=ok, loc=L(SCANNER, f["line"] if f else 0))
     if not ok:
         rec.finding(R, "F1.line-scan/new_line", "Scanner::new_line no longer records the offset in line_offsets", loc=L(SCANNER, f["line"] if f else 0))
+
+
+# ---------------------------------------------------------------------------
+# F1.num — every Number token the scanner makes is accepted by the f64 parser the compiler unwraps
+
+def run_number_tokens(rec, F):
+    from ..facts import lastseg, loc_of, op_local
+    from .. import sem
+    R = rec.rule("F1.num", "Compiler::number unwraps str::parse::<f64>() on the token text, so Scanner::number may only make Number tokens in the f64 grammar digits+ ('.' digits+)? ([eE][+-]? digits+)?: (a) is_digit is ASCII-only; (b) the '.' is consumed only on the edge where the character after it is a digit; (c) every path from a consumed e/E to the Number token passes an edge on which a digit was consumed (next_if(is_digit) returned Some), anything else ends in an error token")
+    cn = F.find1(r"compiler::Compiler.*::number$")
+    sc = F.find1(r"scanner::Scanner.*::number$")
+    dg = F.find1(r"scanner::is_digit$")
+    if cn is None or sc is None or dg is None:
+        rec.anchor_lost("F1.num", "Compiler::number / Scanner::number / is_digit")
+        return
+    unwraps = any(lastseg(t["f"]) in ("expect", "unwrap") for _, t in cn.calls()) and any(lastseg(t["f"]) == "parse" for _, t in cn.calls())
+    rec.inst(R, "Compiler::number unwraps the parse (obligation on the scanner)", ok=True, loc=cn.loc, note="unwraps=%s" % unwraps)
+    if not unwraps:
+        return   # the compiler reports a diagnostic itself: no obligation
+    # (a)
+    calls = [lastseg(t["f"]) for _, t in dg.calls()]
+    oka = calls == ["is_ascii_digit"] or (not calls and any(s["r"]["k"] == "bin" for _, _, s in dg.stmts()))
+    rec.inst(R, "(a) is_digit is ASCII-only", ok=oka, loc=dg.loc, note=str(calls))
+    if not oka:
+        rec.finding(R, "F1.num/is_digit", "scanner::is_digit is not the ASCII digit test (calls %s): characters such as Unicode digits enter Number tokens that str::parse::<f64> rejects, and the compiler unwraps that parse" % calls, loc=dg.loc, fn=dg.path)
+
+    def digit_next_if(t):
+        if lastseg(t["f"]) != "next_if":
+            return False
+        for cp in sem.closure_args_of_call(sc, t):
+            c = F.fn(cp)
+            if c is not None and any(lastseg(u["f"]) in ("is_digit", "is_ascii_digit") for _, u in c.calls()):
+                return True
+        return False
+    mk = [bi for bi, t in sc.calls() if lastseg(t["f"]) == "make_token_source"]
+    if len(mk) != 1:
+        rec.anchor_lost("F1.num", "the single make_token_source(Number) in Scanner::number")
+        return
+    M = mk[0]
+    # edges on which a digit has just been consumed
+    good = set()
+    for bi, blk in enumerate(sc.blocks):
+        t = blk["t"]
+        if t["k"] != "switch":
+            continue
+        d = sem.desc_operand(sc, t["on"])
+        ds = str(d)
+        if d[0] == "call" and d[1] in ("is_some", "is_none") and "'next_if'" in ds:
+            # which next_if?
+            l = op_local(t["on"])
+            sd = sc.single_def(l) if l is not None else None
+            src = None
+            if sd and sd[0] == "call":
+                r = sc.root_of(sd[1]["args"][0])
+                if r[0] == "call":
+                    src = r[1]
+            if src is None or not digit_next_if(src):
+                continue
+            zero = [dst for v, dst in t["targets"] if v == "0"]
+            some_dst = t["otherwise"] if d[1] == "is_some" else (zero[0] if zero else None)
+            if some_dst is not None:
+                good.add((bi, some_dst))
+
+    def reach_without_good(src, dst):
+        seen, st = set(), [src]
+        while st:
+            x = st.pop()
+            if x in seen:
+                continue
+            seen.add(x)
+            if x == dst:
+                return True
+            for y in sc.succ(x):
+                if (x, y) not in good:
+                    st.append(y)
+        return False
+    # (c)
+    exps = []
+    for bi, t in sc.calls():
+        if lastseg(t["f"]) == "match_char" and len(t["args"]) > 1 and sem.const_int(t["args"][1]) in (101, 69):
+            sw = sc.blocks[t["to"]]["t"]
+            if sw["k"] == "switch":
+                exps.append((bi, sw["otherwise"]))
+    if len(exps) < 2:
+        rec.anchor_lost("F1.num", "match_char('e') / match_char('E') in Scanner::number")
+    for bi, tgt in exps:
+        bad = reach_without_good(tgt, M)
+        rec.inst(R, "(c) exponent marker @%s: a digit is consumed before the token is made" % loc_of(sc.blocks[bi]["t"]["sp"]).rsplit(":", 1)[-1], ok=not bad, loc=loc_of(sc.blocks[bi]["t"]["sp"]))
+        if bad:
+            rec.finding(R, "F1.num/exponent-digits", "Scanner::number can make a Number token after consuming e/E (and a sign) without consuming a digit: text like `2e;` or `1e+x` becomes a Number token and Compiler::number panics on parse::<f64>().expect(..) instead of a diagnostic", loc=loc_of(sc.blocks[bi]["t"]["sp"]), fn=sc.path)
+    # (b)
+    dots = []
+    for bi, blk in enumerate(sc.blocks):
+        t = blk["t"]
+        if t["k"] == "switch" and any(v == "46" for v, _ in t["targets"]) and "peek" in str(sem.desc_operand(sc, t["on"])):
+            dots.append(bi)
+    consumed = [bi for bi, t in sc.calls() if lastseg(t["f"]) == "next" and "scanner::Scanner" in t["f"]]
+    okb = bool(dots) and bool(consumed)
+    for cb in consumed:
+        gs = sem.dominating_guards(F, sc, cb)
+        okb = okb and any(sem.desc_call_name(d) in ("is_digit", "is_ascii_digit") and outc is True for w, d, outc in gs)
+    rec.inst(R, "(b) '.' consumed only when a digit follows", ok=okb, loc=sc.loc)
+    if not okb:
+        rec.finding(R, "F1.num/fraction-digits", "Scanner::number consumes the '.' of a number without having seen a digit after it: `1.` / `1.foo` would become Number tokens (and `1.str()` would stop being a method call)", loc=sc.loc, fn=sc.path)
